@@ -1,0 +1,17 @@
+//go:build verif
+
+package fdpool
+
+import (
+	"unsafe"
+
+	"github.com/go-git/go-git/v6/x/verifhook"
+)
+
+func verifPoint(name string) { verifhook.Point(name) }
+
+// verifEvent reports pool state; it must be called with p.mu held.
+// id = address of the handle, a = LRU length, b = capacity, c = extra.
+func (p *Pool) verifEvent(kind string, h *Handle, extra int64) {
+	verifhook.Event(kind, uintptr(unsafe.Pointer(h)), int64(p.lru.Len()), int64(p.capacity), extra)
+}
